@@ -919,6 +919,16 @@ fn block_on_next(out: usize, once: bool) {
         match r {
             Poll::Ready(Some(v)) => {
                 ev("out", out as i64, v as i64);
+                {
+                    // reach probe: the buffer was full when this read made room (the producer was, or was about to be, throttled)
+                    let world = w();
+                    if let Some(src) = world.outs[out].src {
+                        let finished = world.streams[src].processed.iter().filter(|p| p.2.is_some()).count();
+                        if finished.saturating_sub(world.outs[out].outputs.len()) >= world.outs[out].depth {
+                            world.cover.pipe_backpressure += 1;
+                        }
+                    }
+                }
                 w().outs[out].outputs.push(v);
                 w().outs[out].depth_dirty = false;
                 break;
